@@ -271,6 +271,21 @@ Theorem C10_relaunch_of_finished_job_keeps_failed : forall d o dth, d_done d = t
 Proof. exact relaunch_of_finished_job_keeps_failed. Qed.
 Print Assumptions C10_relaunch_of_finished_job_keeps_failed.
 
+(* ---------------------------------------------------------------- the run lock is a lock on an inode *)
+(* `lk_run lk0 l`: any sequence l of open / acquire / release / unlink events of any number of processes on
+   the lock file (open creates the file when the path names nothing; acquire succeeds only when nobody holds
+   the lock of the inode the process has open).  As long as the file is never unlinked: one holder at most *)
+Theorem C10_lock_file_kept_exclusive : forall l, no_unlink l = true -> length (lk_held (lk_run lk0 l)) <= 1.
+Proof. exact lock_file_kept_exclusive. Qed.
+Print Assumptions C10_lock_file_kept_exclusive.
+
+(* unlinking the lock file after releasing it, refuted: A (0) ends while B (1) waits, C (2) comes later *)
+Theorem C10_lock_file_unlinked_refuted :
+  exists l, lk_held (lk_run lk0 l) = [(2, 1); (1, 0)] /\
+            l = [LOpen 0; LAcquire 0; LOpen 1; LAcquire 1; LRelease 0; LUnlink; LAcquire 1; LOpen 2; LAcquire 2].
+Proof. exact lock_file_unlinked_refuted. Qed.
+Print Assumptions C10_lock_file_unlinked_refuted.
+
 (* record of the defect of the pinned commit: the literal runner keeps the pid file after a success *)
 Theorem C10_pid_left_on_success_refuted :
   exists d o, Inv d /\ success o = true /\ d_pid (launch Prefix d o None) = true.
